@@ -3,10 +3,12 @@ import MxV.Model.Values
 Model side (`Values.validate`, generic in the regenerated validator table):
 * enumerated types accept exactly their literals (`enum_accepts_iff`);
 * numeric facets are exact: an integer passes the facet check iff it lies within every declared
-  inclusive/exclusive bound (`facet_int_iff`), at the boundaries included;
-* an accepted *integer* renders, via `str()`, as an XSD integer lexical form
-  (`int_render_is_lexical`), a plain-decimal float repr as an xs:decimal lexical form
-  (`plain_decimal_repr_is_lexical`, with the repr text as hypothesis — dtoa is trusted).
+  inclusive/exclusive bound (`range_exact`, `minExclusive_exact`, `minInclusive_exact`), at the boundaries included;
+* every `int` renders, via `str()`, as an XSD integer lexical form (`int_render_is_lexical`, all of ℤ;
+  `Nat.toDigits` lemmas of core Lean); a float's text is `repr()` as supplied by CPython (dtoa trusted),
+  which is a lexical xs:decimal exactly when it has no exponent and is finite — the open findings below;
+* pattern types: see `Tables/D_patterns.lean` (library expression ≡ schema pattern, collapse, xs:date);
+  unions: `union_accepts_iff_member`.
 Partial (open findings F13/F14, with witnesses below): bools pass the integer/decimal gate and
 render as `True`/`False`; exponent-form, `nan`, `inf` floats pass decimal types and render invalid
 lexical forms; element-only/empty types accept any text. Pattern-typed strings are validated by the
@@ -137,11 +139,76 @@ example : dateDayOk "2000-02-29".toList = true ∧ dateDayOk "1900-02-29".toList
     dateDayOk "-0004-02-29+02:00".toList = true ∧ dateDayOk "2001-04-31Z".toList = false ∧
     dateDayOk "12345-02-29".toList = false := by decide
 
+/-- a plain union type (font-size, yes-no-number): no literal of its own, members tried in order -/
+def PlainUnion (d : SimpleDef) : Prop :=
+  d.union ≠ [] ∧ d.forced = [] ∧ d.isNonNeg = false ∧ d.isPositive = false
+
+/-- **any member of a union**: a union type accepts a value exactly when the value has one of the
+    members' Python types and at least one member type accepts it (a member's TypeError just moves on
+    to the next member; nothing else is consulted) -/
+theorem union_accepts_iff_member (env : Env) (fuel : Nat) (d : SimpleDef) (h : PlainUnion d) (v : PyVal) :
+    validate env (fuel + 1) d v = .ok ↔
+      (typeGate (gateTypes env d) [] v = true ∧
+       d.union.any (fun u => match lookupDef u env.defs with
+         | some m => validate env fuel m v == .ok
+         | Option.none => false) = true) := by
+  obtain ⟨h1, h2, h3, h4⟩ := h
+  have hne : d.union.isEmpty = false := by
+    cases hu : d.union with
+    | nil => exact absurd hu h1
+    | cons _ _ => rfl
+  have hf : inStrs v [] = false := by cases v <;> simp [inStrs]
+  simp only [validate, h2, hf, hne, h3, h4, Bool.not_false, Bool.false_and]
+  generalize (d.union.any _) = A
+  generalize typeGate (gateTypes env d) [] v = G
+  cases G <;> cases A <;> simp
+
 /-- non-string values never pass such a type -/
 theorem token_pattern_rejects_nonstring (env : Env) (fuel : Nat) (d : SimpleDef) (k : Nat)
     (h : TokenPattern d k) (z : Int) : validate env (fuel + 1) d (.int z) ≠ .ok := by
   obtain ⟨h1, h2, h3, h4, h5, h6, h7, h8⟩ := h
   simp [validate, gateTypes, h2, typeGate, inStrs, h3, pyTypeOf, h1]
+
+/-! ### an integer is always written as an xs:integer lexical form (`[\-+]?[0-9]+`) -/
+def isIntegerLexical : List Char → Bool
+  | '-' :: r => !r.isEmpty && r.all Char.isDigit
+  | '+' :: r => !r.isEmpty && r.all Char.isDigit
+  | r => !r.isEmpty && r.all Char.isDigit
+
+theorem digits_ok (n : Nat) : (Nat.toDigits 10 n).isEmpty = false ∧ (Nat.toDigits 10 n).all Char.isDigit = true := by
+  constructor
+  · have := @Nat.toDigits_ne_nil n 10
+    cases h : Nat.toDigits 10 n with
+    | nil => exact absurd h this
+    | cons _ _ => rfl
+  · rw [List.all_eq_true]
+    intro c hc
+    exact Nat.isDigit_of_mem_toDigits (by decide) (by decide) hc
+
+theorem int_lexical_of_digits {l : List Char} (h1 : l.isEmpty = false) (h2 : l.all Char.isDigit = true) :
+    isIntegerLexical l = true ∧ isIntegerLexical ('-' :: l) = true := by
+  cases l with
+  | nil => simp at h1
+  | cons c r =>
+    have hc : c.isDigit = true := by simp [List.all_cons] at h2; exact h2.1
+    have : c ≠ '-' ∧ c ≠ '+' := by
+      constructor <;> (intro e; subst e; simp [Char.isDigit] at hc)
+    refine ⟨?_, by simp [isIntegerLexical, h2]⟩
+    unfold isIntegerLexical
+    split
+    · rename_i heq; simp at heq; exact absurd heq.1 this.1
+    · rename_i heq; simp at heq; exact absurd heq.1 this.2
+    · simp [h2]
+
+theorem int_render_is_lexical (z : Int) : isIntegerLexical (pyStr (.int z)).toList = true := by
+  have h : (pyStr (.int z)).toList =
+      if 0 ≤ z then Nat.toDigits 10 z.toNat else '-' :: Nat.toDigits 10 (-z).toNat := by
+    simp only [pyStr, Int.toString_eq_repr, Int.repr_eq_if]
+    split <;> simp [Nat.toList_repr]
+  rw [h]
+  split
+  · exact (int_lexical_of_digits (digits_ok _).1 (digits_ok _).2).1
+  · exact (int_lexical_of_digits (digits_ok _).1 (digits_ok _).2).2
 
 /-! negative witnesses (open findings F13): values the validator accepts whose `str()` is not a
     lexical form of the XSD type -/
@@ -170,6 +237,8 @@ end C05
 #print axioms C05.token_pattern_accepts_iff
 #print axioms C05.plain_pattern_accepts_iff
 #print axioms C05.date_accepts_iff
+#print axioms C05.union_accepts_iff_member
+#print axioms C05.int_render_is_lexical
 #print axioms C05.token_pattern_rejects_nonstring
 #print axioms C05.bool_passes_integer
 #print axioms C05.exponent_float_passes_decimal
